@@ -285,11 +285,14 @@ def find_entries(
     lexicon_rowids: Sequence[int] = (),
     normalized: bool = False,
     search_all_forms: bool = False,
+    form_lexicon_rowids: Sequence[int] = (),
 ) -> Iterator[_Word]:
     conn = connect()
     cte = ''
     params: list = []
     conditions = []
+    # forms may come from more lexicons (extensions) than the entries
+    form_lexicon_rowids = form_lexicon_rowids or lexicon_rowids
     if id:
         conditions.append('e.id = ?')
         params.append(id)
@@ -298,8 +301,8 @@ def find_entries(
         or_norm = 'OR normalized_form IN wordforms' if normalized else ''
         and_rank = '' if search_all_forms else 'AND rank = 0'
         and_lex = ''
-        if lexicon_rowids:
-            and_lex = f'AND lexicon_rowid IN ({_qs(lexicon_rowids)})'
+        if form_lexicon_rowids:
+            and_lex = f'AND lexicon_rowid IN ({_qs(form_lexicon_rowids)})'
         conditions.append(f'''
             e.rowid IN
                (SELECT entry_rowid
@@ -307,7 +310,7 @@ def find_entries(
                  WHERE (form IN wordforms {or_norm}) {and_rank} {and_lex})
         '''.strip())
         params.extend(forms)
-        params.extend(lexicon_rowids)
+        params.extend(form_lexicon_rowids)
     if pos:
         conditions.append('e.pos = ?')
         params.append(pos)
@@ -315,8 +318,8 @@ def find_entries(
         conditions.append(f'e.lexicon_rowid IN ({_qs(lexicon_rowids)})')
         params.extend(lexicon_rowids)
         # forms an extension adds to the entry belong to the extension
-        conditions.append(f'f.lexicon_rowid IN ({_qs(lexicon_rowids)})')
-        params.extend(lexicon_rowids)
+        conditions.append(f'f.lexicon_rowid IN ({_qs(form_lexicon_rowids)})')
+        params.extend(form_lexicon_rowids)
 
     condition = ''
     if conditions:
